@@ -105,7 +105,14 @@ def extra(case, lines, rot):
     buf = io.StringIO()
     try:
         with contextlib.redirect_stdout(buf):
-            exec(compile(src, '<reference>', 'exec'), nsref)
+            import ast
+            import asyncio
+            import inspect
+            code = compile(src, '<reference>', 'exec', flags=ast.PyCF_ALLOW_TOP_LEVEL_AWAIT)
+            if code.co_flags & inspect.CO_COROUTINE:
+                asyncio.run(eval(code, nsref))          # the program uses top-level await: run it as one coroutine
+            else:
+                exec(code, nsref)
     except Exception as ex:
         raise common.MachineryError('reference execution of a generated program failed: %r\n%s' % (ex, src))
     if Tref != case['runset']:
